@@ -358,7 +358,7 @@ func C05(tier string) int {
 		env, err := c05Setup(pol, work)
 		if err != nil {
 			os.Stdout = realStdout
-			fmt.Println("C05: setup failed:", err)
+			fmt.Fprintln(os.Stderr, "C05: setup failed:", err)
 			return 2
 		}
 		for _, transport := range []string{"grpc", "direct"} {
